@@ -1,7 +1,7 @@
 """C05 — merge materialises the overlay view and continues the patch chain (P-tier: refusal, source frame, merged user block)."""
 import z3
 
-from . import hashing, record
+from . import hashing, manifest, record
 from .record import ublock_reject
 
 
@@ -23,6 +23,7 @@ def build(reg):
     record.add_open_bindings(reg)
     record.add_lifecycle(reg)
     specs = record.add_merge(reg) + record.add_codec(reg)
+    specs += [x for x in manifest.add_manifest(reg) if x.qual in ("IH5MFRecord._fixes_after_merge", "IH5MFRecord.merge_files")]  # the manifest side of a merge
     return {
         "verify": specs,
         "lemmas": [("chain-continuation", lemma_chain_continuation)],
